@@ -355,6 +355,162 @@ def esl_wei_Sample (u mu lambda tau : α) : α :=
   let p := u
   (esl_wei_invcdf p mu lambda tau)
 
+/-- `esl_sxp_pdf` (esl_stretchexp.c:51) -/
+def esl_sxp_pdf (x mu lambda tau : α) : α :=
+  let y := (lambda * (x - mu))
+  if (x < mu) then
+    0.0
+  else
+    let gt := Num.logGamma (1.0 / tau)
+    if (Num.eqb x mu = true) then
+      let val := ((lambda * tau) / (Num.exp gt))
+      val
+    else
+      let val := (((lambda * tau) / (Num.exp gt)) * (Num.exp (-(Num.exp (tau * (Num.log y))))))
+      val
+
+/-- `esl_sxp_logpdf` (esl_stretchexp.c:73) -/
+def esl_sxp_logpdf (x mu lambda tau : α) : α :=
+  let y := (lambda * (x - mu))
+  if (x < mu) then
+    (-Num.inf)
+  else
+    let gt := Num.logGamma (1.0 / tau)
+    if (Num.eqb x mu = true) then
+      let val := (((Num.log lambda) + (Num.log tau)) - gt)
+      val
+    else
+      let val := ((((Num.log lambda) + (Num.log tau)) - gt) - (Num.exp (tau * (Num.log y))))
+      val
+
+/-- `esl_sxp_cdf` (esl_stretchexp.c:94) -/
+def esl_sxp_cdf (x mu lambda tau : α) : α :=
+  let y := (lambda * (x - mu))
+  if (x ≤ mu) then
+    0.0
+  else
+    let val := Num.incGammaP (1.0 / tau) (Num.exp (tau * (Num.log y)))
+    val
+
+/-- `esl_sxp_logcdf` (esl_stretchexp.c:113) -/
+def esl_sxp_logcdf (x mu lambda tau : α) : α :=
+  let y := (lambda * (x - mu))
+  if (x ≤ mu) then
+    (-Num.inf)
+  else
+    let val := Num.incGammaP (1.0 / tau) (Num.exp (tau * (Num.log y)))
+    (Num.log val)
+
+/-- `esl_sxp_surv` (esl_stretchexp.c:130) -/
+def esl_sxp_surv (x mu lambda tau : α) : α :=
+  let y := (lambda * (x - mu))
+  if (x ≤ mu) then
+    1.0
+  else
+    let val := Num.incGammaQ (1.0 / tau) (Num.exp (tau * (Num.log y)))
+    val
+
+/-- `esl_sxp_logsurv` (esl_stretchexp.c:148) -/
+def esl_sxp_logsurv (x mu lambda tau : α) : α :=
+  let y := (lambda * (x - mu))
+  if (x ≤ mu) then
+    0.0
+  else
+    let val := Num.incGammaQ (1.0 / tau) (Num.exp (tau * (Num.log y)))
+    (Num.log val)
+
+/-- `esl_gam_pdf` (esl_gamma.c:49) -/
+def esl_gam_pdf (x mu lambda tau : α) : α :=
+  let y := (lambda * (x - mu))
+  if (y < 0.0) then
+    0.0
+  else
+    let gamtau := Num.logGamma tau
+    let val := ((((tau * (Num.log lambda)) + ((tau - 1.0) * (Num.log (x - mu)))) - gamtau) - y)
+    (Num.exp val)
+
+/-- `esl_gam_logpdf` (esl_gamma.c:70) -/
+def esl_gam_logpdf (x mu lambda tau : α) : α :=
+  let y := (lambda * (x - mu))
+  if (x < 0.0) then
+    (-Num.inf)
+  else
+    let gamtau := Num.logGamma tau
+    let val := ((((tau * (Num.log lambda)) + ((tau - 1.0) * (Num.log (x - mu)))) - gamtau) - y)
+    val
+
+/-- `esl_gam_cdf` (esl_gamma.c:94) -/
+def esl_gam_cdf (x mu lambda tau : α) : α :=
+  let y := (lambda * (x - mu))
+  if (y ≤ 0.0) then
+    0.0
+  else
+    let val := Num.incGammaP tau y
+    val
+
+/-- `esl_gam_logcdf` (esl_gamma.c:113) -/
+def esl_gam_logcdf (x mu lambda tau : α) : α :=
+  let y := (lambda * (x - mu))
+  if (y ≤ 0.0) then
+    (-Num.inf)
+  else
+    let val := Num.incGammaP tau y
+    (Num.log val)
+
+/-- `esl_gam_surv` (esl_gamma.c:131) -/
+def esl_gam_surv (x mu lambda tau : α) : α :=
+  let y := (lambda * (x - mu))
+  if (y ≤ 0.0) then
+    1.0
+  else
+    let val := Num.incGammaQ tau y
+    val
+
+/-- `esl_gam_logsurv` (esl_gamma.c:154) -/
+def esl_gam_logsurv (x mu lambda tau : α) : α :=
+  let y := (lambda * (x - mu))
+  if (y ≤ 0.0) then
+    0.0
+  else
+    let val := Num.incGammaQ tau y
+    (Num.log val)
+
+/-- `esl_normal_pdf` (esl_normal.c:53) -/
+def esl_normal_pdf (x mu sigma : α) : α :=
+  let z := ((x - mu) / sigma)
+  ((Num.exp (((-z) * z) * 0.5)) / (sigma * (Num.sqrt (2.0 * 3.14159265358979323846264338328))))
+
+/-- `esl_normal_logpdf` (esl_normal.c:71) -/
+def esl_normal_logpdf (x mu sigma : α) : α :=
+  let z := ((x - mu) / sigma)
+  (((((-z) * z) * 0.5) - (Num.log sigma)) - (Num.log (Num.sqrt (2.0 * 3.14159265358979323846264338328))))
+
+/-- `esl_normal_cdf` (esl_normal.c:89) -/
+def esl_normal_cdf (x mu sigma : α) : α :=
+  let z := ((x - mu) / sigma)
+  (0.5 * (Num.erfc (((-1.0) * z) / (Num.sqrt 2.0))))
+
+/-- `esl_normal_surv` (esl_normal.c:113) -/
+def esl_normal_surv (x mu sigma : α) : α :=
+  let z := ((x - mu) / sigma)
+  (0.5 * (Num.erfc (z / (Num.sqrt 2.0))))
+
+/-- `esl_lognormal_pdf` (esl_lognormal.c:20) -/
+def esl_lognormal_pdf (x mu sigma : α) : α :=
+  if (Num.eqb x (0.0) = true) then
+    0.0
+  else
+    let z := (((Num.log x) - mu) / sigma)
+    ((Num.exp (((-z) * z) * 0.5)) / ((x * sigma) * (Num.sqrt (2.0 * 3.14159265358979323846264338328))))
+
+/-- `esl_lognormal_logpdf` (esl_lognormal.c:32) -/
+def esl_lognormal_logpdf (x mu sigma : α) : α :=
+  if (Num.eqb x (0.0) = true) then
+    (-Num.inf)
+  else
+    let z := (((Num.log x) - mu) / sigma)
+    (((-(Num.log (x * sigma))) - (0.5 * (Num.log (2.0 * 3.14159265358979323846264338328)))) - ((0.5 * z) * z))
+
 /-- name → translated function (a generator parameter is the leading deviate `u`) -/
 def dispatch (name : String) (a : List α) : Option α :=
   match name, a with
@@ -392,6 +548,24 @@ def dispatch (name : String) (a : List α) : Option α :=
   | "esl_wei_logsurv", [x0, x1, x2, x3] => some (esl_wei_logsurv x0 x1 x2 x3)
   | "esl_wei_invcdf", [x0, x1, x2, x3] => some (esl_wei_invcdf x0 x1 x2 x3)
   | "esl_wei_Sample", [x0, x1, x2, x3] => some (esl_wei_Sample x0 x1 x2 x3)
+  | "esl_sxp_pdf", [x0, x1, x2, x3] => some (esl_sxp_pdf x0 x1 x2 x3)
+  | "esl_sxp_logpdf", [x0, x1, x2, x3] => some (esl_sxp_logpdf x0 x1 x2 x3)
+  | "esl_sxp_cdf", [x0, x1, x2, x3] => some (esl_sxp_cdf x0 x1 x2 x3)
+  | "esl_sxp_logcdf", [x0, x1, x2, x3] => some (esl_sxp_logcdf x0 x1 x2 x3)
+  | "esl_sxp_surv", [x0, x1, x2, x3] => some (esl_sxp_surv x0 x1 x2 x3)
+  | "esl_sxp_logsurv", [x0, x1, x2, x3] => some (esl_sxp_logsurv x0 x1 x2 x3)
+  | "esl_gam_pdf", [x0, x1, x2, x3] => some (esl_gam_pdf x0 x1 x2 x3)
+  | "esl_gam_logpdf", [x0, x1, x2, x3] => some (esl_gam_logpdf x0 x1 x2 x3)
+  | "esl_gam_cdf", [x0, x1, x2, x3] => some (esl_gam_cdf x0 x1 x2 x3)
+  | "esl_gam_logcdf", [x0, x1, x2, x3] => some (esl_gam_logcdf x0 x1 x2 x3)
+  | "esl_gam_surv", [x0, x1, x2, x3] => some (esl_gam_surv x0 x1 x2 x3)
+  | "esl_gam_logsurv", [x0, x1, x2, x3] => some (esl_gam_logsurv x0 x1 x2 x3)
+  | "esl_normal_pdf", [x0, x1, x2] => some (esl_normal_pdf x0 x1 x2)
+  | "esl_normal_logpdf", [x0, x1, x2] => some (esl_normal_logpdf x0 x1 x2)
+  | "esl_normal_cdf", [x0, x1, x2] => some (esl_normal_cdf x0 x1 x2)
+  | "esl_normal_surv", [x0, x1, x2] => some (esl_normal_surv x0 x1 x2)
+  | "esl_lognormal_pdf", [x0, x1, x2] => some (esl_lognormal_pdf x0 x1 x2)
+  | "esl_lognormal_logpdf", [x0, x1, x2] => some (esl_lognormal_logpdf x0 x1 x2)
   | _, _ => none
 
 end EaselModel.Dist.Gen
